@@ -414,8 +414,14 @@ func headTail(s string) string {
 
 // confirm re-runs one case n times in a fresh worker each and returns how many times sig was reproduced.
 func (r *runner) confirm(v *violRec, n int) (ok int, desc json.RawMessage, tag string) {
+	return r.confirmMode(v, n, "only")
+}
+
+// confirmMode: mode "only" runs the case alone in a fresh worker, "upto" runs the cases 0..I of its group
+// in order in a fresh worker (the history the case had in the exploring worker) and judges case I.
+func (r *runner) confirmMode(v *violRec, n int, mode string) (ok int, desc json.RawMessage, tag string) {
 	for k := 0; k < n; k++ {
-		sigs, d, crashed := r.runOne(v.G, v.I)
+		sigs, d, crashed := r.runOneMode(v.G, v.I, mode)
 		if d != nil {
 			desc = d
 		}
@@ -437,6 +443,10 @@ func (r *runner) confirm(v *violRec, n int) (ok int, desc json.RawMessage, tag s
 
 // runOne runs a single case (g,i) in a fresh worker. Returns violated sigs, desc, and crash class ("" if none).
 func (r *runner) runOne(g int, i int64) (sigs []string, desc json.RawMessage, crash string) {
+	return r.runOneMode(g, i, "only")
+}
+
+func (r *runner) runOneMode(g int, i int64, mode string) (sigs []string, desc json.RawMessage, crash string) {
 	hbPath := filepath.Join(r.tmp, "hbone")
 	hb, err := openHB(hbPath, true)
 	if err != nil {
@@ -445,7 +455,7 @@ func (r *runner) runOne(g int, i int64) (sigs []string, desc json.RawMessage, cr
 	defer hb.close()
 	cmd := exec.Command(r.exe, "worker", r.c.ID(), "--tier", r.tier, "--seed", strconv.FormatInt(r.seed, 10), "--hb", hbPath)
 	cmd.Env = append(os.Environ(), "GOMAXPROCS=1", "GOTRACEBACK=single")
-	cmd.Stdin = strings.NewReader(fmt.Sprintf("g %d %d 0 only\nq\n", g, i))
+	cmd.Stdin = strings.NewReader(fmt.Sprintf("g %d %d 0 %s\nq\n", g, i, mode))
 	var out bytes.Buffer
 	tb := &tailBuf{}
 	cmd.Stdout = &out
@@ -458,7 +468,7 @@ func (r *runner) runOne(g int, i int64) (sigs []string, desc json.RawMessage, cr
 	hang := false
 	select {
 	case <-doneCh:
-	case <-time.After(time.Duration(r.hangConfirmSecs()) * time.Second):
+	case <-time.After(time.Duration(r.hangConfirmSecs()) * time.Second * time.Duration(map[bool]int{false: 1, true: 10}[mode == "upto"])):
 		hang = true
 		cmd.Process.Kill()
 		<-doneCh
@@ -523,6 +533,7 @@ type replayFile struct {
 	Case     json.RawMessage `json:"case,omitempty"`
 	Count    int64           `json:"occurrences"`
 	How      string          `json:"how_to_replay"`
+	History  bool            `json:"history_dependent,omitempty"` // replay runs cases 0..index of the group
 }
 
 // CheckMain is the parent entry. Returns the process exit code.
@@ -624,6 +635,20 @@ func CheckMain(id, tier string, seed int64) int {
 		if v.Desc == nil {
 			v.Desc = desc
 		}
+		history := false
+		if ok != nconf && !v.Crash {
+			// not reproducible alone: does it depend on the calls made before it? Re-run the case's group from
+			// its first case up to this one in a fresh worker, three times: if the signature comes back every
+			// time, the library's answer for this input depends deterministically on the preceding calls
+			// (state kept between calls - pools, caches), which is a violation of every per-call statement.
+			if okH, descH, _ := r.confirmMode(v, 3, "upto"); okH == 3 {
+				history = true
+				ok = nconf
+				if v.Desc == nil {
+					v.Desc = descH
+				}
+			}
+		}
 		if ok != nconf {
 			// not reproducible in isolation: harness nondeterminism, never a VIOLATION
 			flaky++
@@ -633,6 +658,11 @@ func CheckMain(id, tier string, seed int64) int {
 		path := filepath.Join(VerifRoot, "replays", id, sigFile(s)+".json")
 		rf := replayFile{Property: id, Tier: tier, Seed: seed, Group: v.G, GroupNm: r.groups[v.G], Index: v.I, Sig: s, Detail: v.Detail, Case: v.Desc, Count: v.N,
 			How: fmt.Sprintf("cd /verif && ./run.sh replay %s", path)}
+		if history {
+			rf.History = true
+			rf.Detail = fmt.Sprintf("HISTORY-DEPENDENT: not reproduced when the case runs alone in a fresh process, reproduced 3/3 times when cases 0..%d of group %q run before it in the same process (state kept by the library between calls)\n", v.I-1, r.groups[v.G]) + rf.Detail
+			v.Detail = rf.Detail
+		}
 		b, _ := json.MarshalIndent(rf, "", " ")
 		os.WriteFile(path, b, 0644)
 		if isKnown {
@@ -763,7 +793,12 @@ func ReplayMain(path string) int {
 	tmp, _ := os.MkdirTemp("", "verif-replay-")
 	defer os.RemoveAll(tmp)
 	r := &runner{c: c, tier: rf.Tier, seed: rf.Seed, groups: c.Groups(rf.Tier, rf.Seed), exe: exe, tmp: tmp, hangSecs: 120}
-	sigs, desc, crash := r.runOne(rf.Group, rf.Index)
+	mode := "only"
+	if rf.History {
+		mode = "upto"
+		fmt.Printf("history-dependent: running cases 0..%d of group %s\n", rf.Index, rf.GroupNm)
+	}
+	sigs, desc, crash := r.runOneMode(rf.Group, rf.Index, mode)
 	fmt.Printf("case: %s\n", string(desc))
 	if rf.Case != nil && desc != nil && !jsonEqual(rf.Case, desc) {
 		fmt.Printf("NOTE: the enumeration changed since this replay was recorded (stored case differs)\n stored: %s\n", string(rf.Case))
